@@ -372,3 +372,111 @@ theorem refill_slow (r : BitsReader) (pos : Nat) (hI : RInv r pos) (ha : r.avail
 
 end BitsReader
 end Stef
+
+namespace Stef
+namespace BitsReader
+
+/-- PeekBits (n ≤ 56) from a state in which `pos` bits were consumed: either it flags EOF — and
+    then the buffer is exhausted and fewer than `n` real-or-padding bits remain — or it returns
+    exactly the next `n` bits of the (zero padded) buffer and keeps the invariant. -/
+theorem peekBits_spec (r : BitsReader) (pos n : Nat) (hI : RInv r pos) (hn : n ≤ 56) :
+    (r.peekBits n).1.buf = r.buf ∧
+    ((r.peekBits n).1.eof = false →
+        RInv (r.peekBits n).1 pos ∧ n ≤ (r.peekBits n).1.availBitCount ∧
+        (r.peekBits n).2 = window r.buf pos n) ∧
+    ((r.peekBits n).1.eof = true → r.buf.length ≤ r.byteIndex ∧ r.availBitCount < n) := by
+  unfold peekBits
+  by_cases hav : n ≤ r.availBitCount
+  · simp only [hav, ↓reduceIte, true_and]
+    refine ⟨fun _ => ⟨hI, peek_value r pos n hI.good hav (by omega)⟩, fun h => ?_⟩
+    rw [hI.noeof] at h; cases h
+  · simp only [hav, ↓reduceIte]
+    unfold refillAndPeekBits
+    have h56 : ¬ n > 56 := by omega
+    simp only [h56, ↓reduceIte]
+    have ha : r.availBitCount < 56 := by omega
+    by_cases hfast : r.byteIndex + 8 < r.buf.length
+    · simp only [hfast, ↓reduceIte, true_and]
+      obtain ⟨hR, hge⟩ := refill_fast r pos hI ha hfast
+      refine ⟨fun _ => ⟨hR, by omega, ?_⟩, fun h => ?_⟩
+      · exact peek_value _ pos n hR.good (by simp only; omega) (by omega)
+      · rw [hI.noeof] at h; cases h
+    · simp only [hfast, ↓reduceIte]
+      by_cases hmore : r.byteIndex < r.buf.length
+      · obtain ⟨hR, hge, hb⟩ := refill_slow r pos hI ha hmore
+        refine ⟨hb, fun _ => ⟨hR, by omega, ?_⟩, fun h => ?_⟩
+        · have := peek_value _ pos n hR.good (by omega) (by omega)
+          rw [hb] at this; exact this
+        · rw [hR.noeof] at h; cases h
+      · have hge : r.byteIndex ≥ r.buf.length := by omega
+        simp only [refillSlow, hge, ↓reduceIte, true_and]
+        exact ⟨fun h => (by cases h), fun _ => by omega⟩
+
+/-- under the invariant, `Error() == nil` exactly when no bit past the end of the buffer was consumed -/
+theorem err_iff (r : BitsReader) (pos : Nat) (hI : RInv r pos) :
+    r.err = false ↔ pos ≤ 8 * r.buf.length := by
+  obtain ⟨_, he, _, hpos⟩ := hI
+  unfold err
+  rcases hpos with ⟨hp1, hp2, hp3, _⟩ | ⟨hp1, _, hp3, _⟩
+  · simp only [he, hp1, Bool.false_and, Bool.or_false, true_iff]; omega
+  · simp only [he, hp1, Bool.true_and, Bool.false_or, decide_eq_false_iff_not]; omega
+
+theorem consume_eof (r : BitsReader) (n : Nat) : (r.consume n).eof = r.eof := rfl
+theorem consume_buf (r : BitsReader) (n : Nat) : (r.consume n).buf = r.buf := rfl
+
+theorem refillLoop_eof (fuel : Nat) (r : BitsReader) : (refillLoop r fuel).eof = r.eof := by
+  induction fuel generalizing r with
+  | zero => rfl
+  | succ k ih =>
+    unfold refillLoop
+    split
+    · rw [ih]
+    · rfl
+
+theorem peekBits_eof_sticky (r : BitsReader) (n : Nat) (h : r.eof = true) : (r.peekBits n).1.eof = true := by
+  unfold peekBits
+  split
+  · exact h
+  · unfold refillAndPeekBits
+    split
+    · exact h
+    · simp only
+      split
+      · exact h
+      · unfold refillSlow
+        split
+        · rfl
+        · simp only
+          split
+          · simp only; rw [refillLoop_eof]; exact h
+          · rw [refillLoop_eof]; exact h
+
+theorem peekBits_buf (r : BitsReader) (n : Nat) : (r.peekBits n).1.buf = r.buf := by
+  unfold peekBits
+  split
+  · rfl
+  · unfold refillAndPeekBits
+    split
+    · rfl
+    · simp only
+      split
+      · rfl
+      · unfold refillSlow
+        split
+        · rfl
+        · have hb : ∀ (fuel : Nat) (q : BitsReader), (refillLoop q fuel).buf = q.buf := by
+            intro fuel
+            induction fuel with
+            | zero => intro q; rfl
+            | succ k ih =>
+              intro q; unfold refillLoop
+              split
+              · rw [ih]
+              · rfl
+          simp only
+          split
+          · simp only; exact hb 8 r
+          · exact hb 8 r
+
+end BitsReader
+end Stef
